@@ -16,7 +16,7 @@ import gen  # noqa
 import rs   # noqa
 
 REPO = gen.REPO
-BUILD = os.path.join(ROOT, "build")
+BUILD = os.environ.get("VERIF_BUILD_DIR") or os.path.join(ROOT, "build")
 VERUS = shutil.which("verus") or "/opt/veriftools/verus/verus"
 
 ENV_ASSUMPTIONS = [
@@ -133,6 +133,8 @@ class UnitResult:
         self.checker_cmd = ""
         self.rewrites: List[dict] = []
         self.skipped: List[str] = []
+        self.runtime_arith: List[dict] = []    # overflow / division obligations left to the runtime checks (relaxed units)
+        self.opaque: List[dict] = []           # functions that gained a closure without contract and do not verify
 
 
 def scan_trusted(text: str) -> List[str]:
@@ -195,6 +197,20 @@ def classify(diags: List[dict], lines_meta: list, build_name: str):
     return failures, hard, rl
 
 
+def overflow_checks_on() -> bool:
+    """[profile.release] overflow-checks = true in /repo/Cargo.toml: integer overflow of primitive arithmetic panics (= abort, nothing
+    is committed) in the built contracts"""
+    try:
+        txt = open(os.path.join(gen.REPO, "Cargo.toml")).read()
+    except OSError:
+        return False
+    m = re.search(r"^\[profile\.release\]\s*$(.*?)(?=^\[|\Z)", txt, re.M | re.S)
+    return bool(m and re.search(r"^\s*overflow-checks\s*=\s*true\s*$", m.group(1), re.M))
+
+
+ARITH_MSG = re.compile(r"possible arithmetic underflow/overflow|possible division by zero")
+
+
 def fn_key_matches(bname: str, fid: str, crate: str) -> bool:
     # breakdown names: "<crate>::execute_transfer", "<crate>::TokenInfo::get_cap"
     return bname == f"{crate}::{fid}" or bname.endswith("::" + fid)
@@ -241,6 +257,17 @@ def run_unit(spec_path: str, tier: str, seed: int, kf_omit: set, do_vacuity: boo
     if raw == "timeout":
         R.status = "undecided"; R.reason = "verus timeout"; return R
     failures, hard, rl = classify(diags, lines_meta, os.path.basename(path))
+    # relaxed units model a panic (overflow with overflow-checks on, division by zero) as abort = nothing committed (DESIGN 4.3): E8
+    # does that for the arithmetic of the pinned tree; arithmetic that a changed tree introduces gets the same treatment here. Verus
+    # assumes the range condition after reporting it, so everything after the operation is checked for the non-panicking runs.
+    if not meta.get("strict") and overflow_checks_on():
+        keep = []
+        for f in failures:
+            if f["fid"] and not f["fid"].startswith("lemma:") and f["label"] == "body" and ARITH_MSG.search(f["message"]):
+                R.runtime_arith.append({"function": f["fid"], "build_line": f["line"], "message": f["message"]})
+            else:
+                keep.append(f)
+        failures = keep
     if not vr or vr.get("encountered-vir-error") or hard or ("verified" not in vr):
         R.status = "undecided"
         R.reason = "unsupported construct / compile error: " + (hard[0][:1500] if hard else (raw[:1500] or json.dumps(vr)))
@@ -282,6 +309,14 @@ def run_unit(spec_path: str, tier: str, seed: int, kf_omit: set, do_vacuity: boo
             R.obligations.append({"oid": f"{unit}/{fid}#{lab}", "kind": "clause", "tags": tags, "discharged": lab not in flabels, "fid": fid})
         R.obligations.append({"oid": f"{unit}/{fid}#body", "kind": "body", "tags": sorted(p for p in props_of_fn if re.match(r"C\d+$", p)),
                               "discharged": "body" not in flabels, "fid": fid})
+        if ff and info.get("new_closures"):
+            # the function gained a closure that has no contract: Verus knows nothing about such a closure's result, so a failing
+            # obligation here may only mean "cannot see through the closure". Undecided, never a violation.
+            R.opaque.append({"function": fid, "closure_lines": info["new_closures"], "failing": sorted(flabels)})
+            R.status = "undecided"
+            R.reason = (f"{fid}: a closure without contract appeared (line(s) {info['new_closures']} of {info['file']}); closures are opaque to the "
+                        f"verifier, so the failing obligation(s) {sorted(flabels)} cannot be decided")
+            continue
         for x in ff:
             x["oid"] = f"{unit}/{fid}#{x['label']}"
             R.failed.append(x)
@@ -527,7 +562,9 @@ def check_property(prop: str, tier: str, seed: int, quiet: bool = False) -> int:
                                          else "declaration only: body not verified here and NO contract is assumed about it (callers' contracts mention it only through call_ensures)")}
                                for r in results for fid, info in r.functions.items() if info.get("assumed")],
             "proof_hints_skipped": [x for r in results for x in r.skipped],
-            "machine_arithmetic": "u64/u128/usize are machine integers with overflow as a proof obligation (strict units) or as abort = revert via E8 partial operators (relaxed units, listed in call_site_rewrites); spec-level sums are mathematical integers",
+            "arithmetic_left_to_runtime_checks": [dict(x, unit=r.unit) for r in results for x in r.runtime_arith],
+            "functions_undecided_because_of_a_new_closure_without_contract": [dict(x, unit=r.unit) for r in results for x in r.opaque],
+            "machine_arithmetic": "u64/u128/usize are machine integers with overflow as a proof obligation (strict units) or as abort = revert (relaxed units: E8 partial operators for the arithmetic of the pinned tree, listed in call_site_rewrites; range / zero-divisor conditions of arithmetic that a changed tree adds are left to the runtime checks, [profile.release] overflow-checks = true, and listed in arithmetic_left_to_runtime_checks); spec-level sums are mathematical integers",
             "bounded": bounded, "bounded_note": ("bounded stand-ins listed above are NOT proof" if bounded else "the bounded Kani stand-ins for the assumed leaves (kani/harnesses.json) run in the thorough tier only"),
             "known_findings": kf_results, "unstable": unstable,
             "undecided": [{"unit": r.unit, "reason": r.reason} for r in undecided] + ([{"not_in_baseline": notbase}] if notbase else []),
